@@ -9,6 +9,8 @@ CONSTANTS
   BlockFirst = TRUE
   ApplyAtStart = TRUE
   Mix = TRUE
+  WriteFails = FALSE
+  EvictEarly = FALSE
   Rec = FALSE
 INVARIANTS AppliedInOrder NoReexecWithoutCrash BlocksPresent StateMatches QuiescentConverged AppliedWhatArrived
 PROPERTIES HeightMonotone
